@@ -294,7 +294,7 @@ def _job(args):
         return [(o.prop, o.fn, o.cls, dict(o.detail, routine=name, n=n), o.events) for o in recs]
     if name.startswith("c14:"):
         return _c14_job(name[4:], n, seed)
-    if name.endswith("@we"):
+    if name.endswith(("@we", "@rb")):
         jn, fn, a, kw = build(name[:-3], n, rng)
     elif name.endswith("@vb"):
         # the same call with verbose output switched on (solver attribute or keyword): printing is supposed to be inert
@@ -363,6 +363,25 @@ def _job(args):
     np.random.seed(seed % (2 ** 31))
     a_call, kw_call = styled if styled is not None else (a, kw)          # the judge sees the call as the builder wrote it
     with contextlib.redirect_stdout(io.StringIO()):
+        if name.endswith("@rb"):
+            # what a call returned belongs to the caller, who works on it IN PLACE (truncates singular values, shifts a
+            # diagonal, rescales a factor) and then calls again with an equal matrix: the judged call is the second one
+            def _scr(o_):
+                if isinstance(o_, np.ndarray) and o_.size and o_.flags.writeable:
+                    try:
+                        o_[...] = o_ * 0 + (np.quaternion(3.0, 1.0, 0.0, 0.0) if o_.dtype == np.quaternion else 3)
+                    except Exception:
+                        pass
+                elif isinstance(o_, (tuple, list)):
+                    for x_ in o_:
+                        _scr(x_)
+                elif isinstance(o_, dict):
+                    for x_ in o_.values():
+                        _scr(x_)
+            import copy as _copy
+            first_args = [x.copy() if isinstance(x, np.ndarray) else (_copy.deepcopy(x) if hasattr(x, "__dict__") and not callable(x) else x) for x in a_call]
+            _scr(fn(*first_args, **kw_call))
+            np.random.seed(seed % (2 ** 31))
         if name.endswith(("@oc", "@o0")):
             # the caller keeps its option objects (a 0-d array holding a tolerance or a budget) and passes them again:
             # the judged call is the SECOND one with the same objects
@@ -487,6 +506,7 @@ def stage(ctx, quick=False):
                 continue
             jobs.append((nm + "@vb", n, ctx.seed * 1013 + 41 * n + len(jobs)))
             jobs.append((nm + "@we", n, ctx.seed * 1013 + 53 * n + len(jobs)))
+            jobs.append((nm + "@rb", n, ctx.seed * 1013 + 59 * n + len(jobs)))
             jobs.append((nm + "@df", n, ctx.seed * 1013 + 43 * n + len(jobs)))
             for st_ in ("@pp", "@kw", "@oc", "@o0"):
                 jobs.append((nm + st_, n, ctx.seed * 1013 + 47 * n + len(jobs)))
